@@ -37,7 +37,7 @@ Global Hint Resolve cln_empty cln_String cln_app cln_srev cln_stake cln_sdrop cl
   cln_cc_nicks cln_cc_topic cln_cc_modes cln_cc_key cln_cc_bans cln_new_chan cln_ban_both
   cln_set_serverSessions cln_set_nicks cln_set_lastProcessed
   cln_parse_prefix cln_prefix_string cln_parse_message cln_msg_bytes cln_extract_password cln_modestr_of
-  cln_normalize_modes cln_irc_params cln_zip_keys cln_service_alias cln_collectM cln_member_session : cln.
+  cln_normalize_modes cln_irc_params cln_go_string_of_byte cln_zip_keys cln_service_alias cln_collectM cln_member_session : cln.
 Global Hint Extern 2 (cln (set_sessions _ _)) => (simple apply cln_set_sessions; [|cbv beta]) : cln.
 Global Hint Extern 2 (cln (set_channels _ _)) => (simple apply cln_set_channels; [|cbv beta]) : cln.
 Global Hint Extern 2 (cln (set_svsholds _ _)) => (simple apply cln_set_svsholds; [|cbv beta]) : cln.
